@@ -187,7 +187,7 @@ def readAction : List Tok → Action
           else if isW kwSET a && isW kwNULL (more.head?.getD .comma) then .setNull
           else .other
         else readAction rest
-      | _ => .other
+      | _ => readAction rest
     else readAction rest
 
 /-- `… REFERENCES <table> (…) [ON DELETE …]` inside one item -/
